@@ -115,6 +115,17 @@ def cases(rng, tier):
     for prog in arr_small:
         allp = [list(p_) for p_ in itertools.permutations(range(len(prog)))]
         yield {"op": "C14.infer", "tag": "array-kind-from-two-sources", "src": prog, "funcs": kc.USER_FUNCS, "perms": allp}
+    # a multi-result function called with FEWER / MORE assignees than it has results, everything else inferable: the
+    # final consistency pass must reject both
+    mk_a = ["p1", ["callassign", ["a"], "<func>ar", [R], []]]
+    for prog in ([mk_a, ["p1", ["callassign", ["u"], "<builtin>svd", [["v", "a"], ["c", 2]], []]]],
+                 [mk_a, ["p1", ["callassign", ["u", "s"], "<builtin>svd", [["v", "a"], ["c", 2]], []]]],
+                 [mk_a, ["p1", ["callassign", ["u", "s", "vt", "x"], "<builtin>svd", [["v", "a"], ["c", 2]], []]]],
+                 [["p1", ["callassign", ["s"], "<func>two", [R], []]]],
+                 [["p1", ["callassign", ["s", "w", "x"], "<func>two", [R], []]]],
+                 [["p1", ["callassign", ["s", "w"], "<func>two", [R], []]]]):
+        yield {"op": "C14.infer", "tag": "assignee-count", "src": prog, "funcs": kc.USER_FUNCS,
+               "perms": [list(range(len(prog))), list(reversed(range(len(prog))))]}
     n = 400 if tier == "quick" else 8000
     for i in range(n):
         prog = kc.rand_program(rng)
